@@ -74,6 +74,17 @@ func (ts *TxSource) program(size int) []byte {
 		prog = append(prog, simmod.Instr{Op: op, Store: byte(1 + simkit.Int(t, "txstore", 0, 1)), Sub: byte(simkit.Int(t, "txsub", 0, 1)),
 			Key: []byte{byte(simkit.Int(t, "txkey", 0, 5))}, Val: simkit.Bytes(t, "txval", 0, 6)})
 	}
+	switch k := simkit.Int(t, "txending", 0, 19); {
+	case k < 3:
+		// the command fails after its instructions: the transaction stays valid (and goes into blocks), its effects do not
+		prog = append(prog, simmod.Instr{Op: simmod.OpFail})
+		simkit.Probe("tx_with_failing_command")
+	case k == 3:
+		// verifies, but its execution is INVALID (refused by the hook after the command, with the nonce already raised and
+		// the command's writes staged): generators must leave it out, drop its sender and keep none of its effects
+		prog = append(prog, simmod.Instr{Op: simmod.OpInvalidAfter})
+		simkit.Probe("tx_verifying_but_invalid_at_execution")
+	}
 	out := simmod.EncodeProgram(prog)
 	// padding: a value-less Set of key ff with a long value would change state; use trailing OpEnd + filler instruction
 	// (OpEnd stops execution, what follows is never run but must decode)
@@ -207,7 +218,7 @@ func (ts *TxSource) filler(a *txAccount) *blockchain.Transaction {
 func CheckSelection(pool []*blockchain.Transaction, block []*blockchain.Transaction, limit int, accountNonce map[string]uint64) (string, string) {
 	// a candidate verifies iff its nonce is the account's nonce plus the number of the sender's transactions taken so far
 	verifies := func(y *blockchain.Transaction, taken int) bool {
-		return y.Nonce == accountNonce[string(y.SenderAddress())]+uint64(taken)
+		return y.Nonce == accountNonce[string(y.SenderAddress())]+uint64(taken) && !simmod.ExecutesInvalid(y.Params)
 	}
 	bySender := map[string][]*blockchain.Transaction{}
 	for _, tx := range pool {
@@ -229,6 +240,9 @@ func CheckSelection(pool []*blockchain.Transaction, block []*blockchain.Transact
 		l := bySender[s]
 		if ptr[s] >= len(l) || !bytes.Equal(l[ptr[s]].ID, x.ID) {
 			return "not-next-of-sender", fmt.Sprintf("transaction %d of the block (sender %x nonce %d) is not the next processable transaction of its sender", i, []byte(s)[:3], x.Nonce)
+		}
+		if simmod.ExecutesInvalid(x.Params) {
+			return "invalid-transaction-included", fmt.Sprintf("transaction %d of the block (sender %x nonce %d) is one whose execution is invalid", i, []byte(s)[:3], x.Nonce)
 		}
 		if dead[s] {
 			return "sender-not-skipped", fmt.Sprintf("transaction %d of the block is by sender %x, which had a higher-priority transaction passed over earlier (a failed sender must be skipped for the rest of the block)", i, []byte(s)[:3])
